@@ -1,21 +1,21 @@
 (* descriptors and children held for devices, in every reachable state of the whole-daemon model (C20) *)
 From Coq Require Import List NArith ZArith Bool Lia.
 From PM Require Import Base.Bytes Base.Outcome Gen.GenConsts Model.ScriptAst Model.Enqueue Model.Script Model.Device Model.Client Model.Daemon
-                       Proofs.DeviceInv Proofs.DeviceRun Proofs.DaemonLedger Proofs.DaemonPending.
+                       Proofs.DeviceInv Proofs.DeviceRun Proofs.DeviceInvG Proofs.DeviceRunG Proofs.DaemonLedger Proofs.DaemonPending.
 Import ListNotations.
 Local Open Scope Z_scope.
 
 Definition attached (d : device) : bool := negb (Z.eqb (dv_cstate d) DEV_NOT_CONNECTED).     (* connected or connecting *)
 
-Lemma has_fd_attached compress d : DInvR compress d -> dv_has_fd d = attached d.
+Lemma has_fd_attached compress d : DInvRG compress d -> dv_has_fd d = attached d.
 Proof.
-  intros [I _]. pose proof (di_fd compress d I) as H. unfold attached.
+  intros [I _]. pose proof (dg_fd compress d I) as H. unfold attached.
   destruct (dv_has_fd d) eqn:E; destruct (Z.eqb_spec (dv_cstate d) DEV_NOT_CONNECTED) as [Hc|Hc]; cbn; auto.
   - apply H in Hc. congruence.
   - exfalso. apply Hc. now apply H.
 Qed.
 
-Lemma dev_fds_attached compress devs : Forall (DInvR compress) devs -> length (filter dv_has_fd devs) = length (filter attached devs).
+Lemma dev_fds_attached compress devs : Forall (DInvRG compress) devs -> length (filter dv_has_fd devs) = length (filter attached devs).
 Proof.
   induction 1 as [|d r Hd Hr IH]; [reflexivity|]. cbn [filter]. rewrite (has_fd_attached compress d Hd).
   destruct (attached d); cbn [length]; now rewrite IH.
